@@ -535,6 +535,9 @@ pub struct Driver {
     pub db_path: Option<PathBuf>,
     server: Option<Server>,
     http: Option<HttpHandle>,
+    /// text form of ids in paths and in the client-id header: 0 canonical, 1 upper case, 2 simple,
+    /// 3 braced, 4 urn (C14 only: all of them name the same id)
+    pub id_style: u8,
     /// in-process uploads arrive in two halves with this many seconds of (virtual) time between them
     pub stall_secs: u32,
     /// appended to the Content-Type of uploads (e.g. "; charset=utf-8"): parameters do not change
@@ -587,6 +590,7 @@ impl Driver {
             db_path: None,
             server: None,
             http: None,
+            id_style: 0,
             stall_secs: 0,
             ct_params: None,
             content_length: false,
@@ -662,7 +666,42 @@ impl Driver {
         }
     }
 
-    pub fn http_call(&mut self, r: HttpReq) -> HttpResp {
+    /// Rewrite the canonical ids of a request built by `req_*` into another accepted text form.
+    fn restyle(&self, r: &mut HttpReq) {
+        if self.id_style == 0 {
+            return;
+        }
+        let style = |u: Uuid, in_path: bool| -> String {
+            let c = u.hyphenated().to_string();
+            match self.id_style {
+                1 => c.to_uppercase(),
+                2 => u.simple().to_string(),
+                3 => {
+                    if in_path {
+                        format!("%7B{c}%7D")
+                    } else {
+                        format!("{{{c}}}")
+                    }
+                }
+                _ => format!("urn:uuid:{c}"),
+            }
+        };
+        if let Some(pos) = r.path.rfind('/') {
+            if let Ok(u) = Uuid::parse_str(&r.path[pos + 1..]) {
+                r.path = format!("{}/{}", &r.path[..pos], style(u, true));
+            }
+        }
+        for (n, v) in r.headers.iter_mut() {
+            if n.eq_ignore_ascii_case("x-client-id") {
+                if let Ok(u) = Uuid::parse_str(&String::from_utf8_lossy(v)) {
+                    *v = style(u, false).into_bytes();
+                }
+            }
+        }
+    }
+
+    pub fn http_call(&mut self, mut r: HttpReq) -> HttpResp {
+        self.restyle(&mut r);
         let resp = match &mut self.ext {
             Some(f) => f(&r),
             None => self.http.as_ref().expect("http driver").call(r.clone()),
@@ -801,8 +840,12 @@ impl Driver {
         let Some(data) = txn.get_snapshot_data(snap.version_id)? else { return Ok(false) };
         // anywhere inside the d-th day: one hour, thirteen hours or almost a whole day past the
         // boundary, so that num_days() is d whichever way an implementation rounds
-        let within = [3600, 13 * 3600, 23 * 3600 + 1800][(days.rem_euclid(3)) as usize];
-        let ts = chrono::Utc::now() - chrono::Duration::seconds(days * 86400 + within);
+        let now = chrono::Utc::now();
+        let since_midnight = now.timestamp().rem_euclid(86400);
+        // ... or just before the last UTC midnight (a calendar day earlier than an age in whole
+        // days suggests)
+        let within = [3600, 13 * 3600, 23 * 3600 + 1800, (since_midnight + 30).min(86399)][(days.rem_euclid(4)) as usize];
+        let ts = now - chrono::Duration::seconds(days * 86400 + within);
         txn.set_snapshot(
             Snapshot { version_id: snap.version_id, timestamp: ts, versions_since: snap.versions_since },
             data,
